@@ -59,7 +59,7 @@ def explore(name, cfg):
   mc = "---- MODULE MC_Model ----\nEXTENDS Model\n" + defs + "\n====\n"
   res = T.run_tlc("MC_Model", CFG_MODEL.format(consts=consts), workers=8, extra_files={"MC_Model.tla": mc},
                   dump="states", timeout=1800, name="model_" + name)
-  states = [s["S"] for s in T.parse_dump(os.path.join(res.workdir, "states.dump"))]
+  states = [s["S"] for s in T.parse_dump_fast(os.path.join(res.workdir, "states.dump"), {"S"})]
   return uni, res, states
 
 
@@ -72,6 +72,40 @@ def tup2list(x):
 def abstract_state(uni, S):
   """TLA record (parsed) -> plain lists."""
   return {k: tup2list(S[k]) for k in ("parent", "kids", "owner", "regref", "registry", "body")}
+
+
+def replay(ctx, rp):
+  """Re-run one recorded case: rebuild the state, apply the call, validate the step."""
+  case = rp["case"]
+  u = case["universe"]
+  uni = Universe(u["kinds"], u["regid"], u["nd"], max(u["regid"] + [1]))
+  catalogue = value_catalogue()
+  pre = {k: case["state_before"][k] for k in ("parent", "kids", "owner", "regref", "registry", "body")}
+  ops = case.get("history_prefix") or [case["op"]]
+  if len(ops) > 1:
+    w = World(uni, None, catalogue)
+    S0 = w.project()
+    steps, smeta, cur = [], [], S0
+    for op in ops:
+      ok = w.apply(op)
+      post = w.project()
+      steps.append({"op": op, "ok": ok, "same": post == cur, "post": post})
+      smeta.append((cur, op, ok, post))
+      cur = post
+    recs, meta = [{"kind": "hist", "S": S0, "steps": steps}], [smeta]
+  else:
+    w = World(uni, pre, catalogue)
+    before = w.project()
+    ok = w.apply(case["op"])
+    post = w.project()
+    recs = [{"kind": "edges", "S": before, "steps": [{"op": case["op"], "ok": ok, "same": post == before, "post": post}]}]
+    meta = [[(before, case["op"], ok, post)]]
+  ctx.evaluations += len(recs[0]["steps"])
+  ctx.traces += 1
+  ctx.nontrivial("replay")
+  ctx.nontrivial("replay2")
+  ctx.sample({"replayed": rp["clause"], "op": case["op"]})
+  validate(ctx, uni, recs, meta, catalogue, rp["features"].get("config", "replay"))
 
 
 def features(uni, pre, op, ok, post):
@@ -261,7 +295,7 @@ def validate(ctx, uni, recs, meta, catalogue, label):
   mc = "---- MODULE MC_Trace_Model ----\nEXTENDS Trace_Model\n" + defs + "\n====\n"
   # split over several TLC processes
   from concurrent.futures import ThreadPoolExecutor
-  nproc = min(8, max(1, len(recs) // 50))
+  nproc = min(6, max(1, len(recs) // 50))
   parts = [list(range(k, len(recs), nproc)) for k in range(nproc)]
 
   def one(part):
@@ -297,11 +331,16 @@ def validate(ctx, uni, recs, meta, catalogue, label):
 
 
 def run(ctx):
+  if ctx.replay_case:
+    return replay(ctx, ctx.replay_case)
   thorough = ctx.thorough()
   ctx.rule = ("a case is one API call applied to a concrete state of real objects; non-trivial = the call was accepted and "
               "changed the model, or was rejected although structurally plausible; distinct by (state, call)")
   catalogue = value_catalogue()
   for name, cfg in CONFIGS.items():
+    if name == "regions" and not thorough:
+      # quick tier: two regions sharing one id (the third region triples the state space)
+      cfg = dict(cfg, kinds=["body", "div", "region", "region"], regid=[0, 0, 1, 1], nids=1)
     uni, res, states = explore(name, cfg)
     if res.violated:
       raise T.MachineryError(f"Model.tla violates its own properties in config {name}: {res.violated}")
